@@ -180,17 +180,21 @@ def r3(cx):
     pa = Prov(m, "alias")
     _, tables = engine(cx)
     # registration table
-    clos = [f for f in m.fns.values() if f.q.startswith("acts::scheduler::context::Context::dispatch_acts::{closure")]
+    from vlib.model import enum_const_cases
+    clos = [f for f in m.fns.values() if f.q == "acts::scheduler::context::Context::dispatch_acts" or f.q.startswith("acts::scheduler::context::Context::dispatch_acts::{closure")]
     reg = {}
     for f in clos:
         for c in f.calls():
             if c.q == TASK + "::add_hook_stmts":
-                k = pa.root(f, c.args[1])
-                ev = None
-                for g in guards_of(m, f, c.b, mode="alias"):
-                    if g.root[0] == "discr" and g.root[2] and g.root[2].endswith("ActEvent"):
-                        ev = discr_variants(m, g)
-                reg[k[2] if k[0] == "agg" else "?"] = (ev, c)
+                # the lifecycle key may be a literal in each arm of `match on` or a local chosen by that match
+                cases = enum_const_cases(f, pa, c.args[1]) or [("?", None)]
+                for key, blk in cases:
+                    ev = None
+                    for g in guards_of(m, f, blk if blk is not None else c.b, mode="alias"):
+                        if g.root[0] == "discr" and g.root[2] and g.root[2].endswith("ActEvent"):
+                            ev = discr_variants(m, g)
+                            break
+                    reg[key] = (ev, c)
     evs = {n for n, _ in m.variants("acts::model::ActEvent")}
     for ev in sorted(evs):
         hit = [(k, v) for k, v in reg.items() if v[0] == {ev}]
